@@ -136,7 +136,7 @@ def cfg_lean(facts):
 
 
 # ------------------------------------------------------------------ XMILE source: independent tokenizer + reference parser
-TOKRE = re.compile(r'\s*(?:(?P<num>\d+\.\d*|\.\d+|\d+)|(?P<q>"[^"]*")|(?P<name>[A-Za-z_][A-Za-z_0-9]*)|(?P<op><>|<=|>=|[-+*/^=<>(),]))')
+TOKRE = re.compile(r'\s*(?:(?P<num>\d+\.\d*|\.\d+|\d+)|(?P<q>"[^"]*")|(?P<name>[A-Za-z_][A-Za-z_0-9]*(?:\.[A-Za-z_][A-Za-z_0-9]*)?)|(?P<op><>|<=|>=|[-+*/^=<>(),]))')
 SPECIALS = {"TIME", "DT", "STARTTIME", "STOPTIME", "PI"}
 BP = {"or": 1, "and": 2, "=": 3, "<>": 3, "<": 4, "<=": 4, ">": 4, ">=": 4, "+": 5, "-": 5, "*": 6, "/": 6, "mod": 6, "^": 8}
 CMPS = {"=", "<>", "<", "<=", ">", ">="}
@@ -150,6 +150,176 @@ def xcanon(name):
     """XMILE identifier equivalence: case-insensitive, blanks/underscores/newlines equivalent, quotes delimit"""
     s = name.strip('"').lower().replace("\\n", "_").replace("\n", "_").replace(" ", "_")
     return re.sub(r"_+", "_", s)
+
+# ------------------------------------------------------------------ wave 6: documents with modules (named <model>s)
+# An unqualified name in an equation means the variable of the model that CONTAINS the equation; `Model.name` is qualified.
+MODULE_NAMES = ["Plant A", "Unit two", "Sector 3", "north", "Sub Model"]
+MODULE_TEXTS = ["rate * 2", "IF rate > 4 THEN rate + base_level ELSE base_level - rate", "SQRT(rate + base_level)", "rate ^ 2 - base_level",
+                "MAX(rate, base_level / 50)", "-rate + (base_level)", "base_level / rate mod 7", "MIN(rate, 4) * (base_level - rate)"]
+PRIMES = [3, 5, 7, 11, 13, 17, 19, 23]
+
+
+def respell(rng, text):
+    """the same equation with other blanks / redundant parentheses (a different text, the same tokens up to parentheses)"""
+    r = rng.below(3)
+    if r == 0:
+        return re.sub(r"\s*([*/+^])\s*", r"\1", text)
+    if r == 1:
+        return re.sub(r"\brate\b", "(rate)", text, count=1)
+    return "  " + text.replace(" ", "  ") + " "
+
+
+def make_module_doc(rng):
+    """[(model name ('' = root), [(variable, equation)])], spec: 2-3 equation texts REPEATED verbatim in every model, re-spelled controls,
+    second-level repeats, qualified references root -> module, module -> other module, module -> itself"""
+    k = rng.range(1, 3)
+    names = rng.shuffle(MODULE_NAMES)[:k]
+    texts = rng.shuffle(MODULE_TEXTS)[:rng.range(2, 3)]
+    models = []
+    for mi, mname in enumerate([""] + names):
+        eqs = [("rate", str(PRIMES[mi])), ("Base Level" if mi % 2 else "base_level", str(100 * (mi + 1)))]
+        for ti, tx in enumerate(texts):
+            eqs.append((f"out {ti}", tx))
+            eqs.append((f"ctl {ti}", respell(rng, tx)))
+        eqs.append(("twice", "out_0 + out_0 * rate"))
+        eqs.append(("again", texts[0]))                         # the same text twice inside one model as well
+        if mi > 0:
+            other = names[(mi) % len(names)]                   # another module (or itself when there is one)
+            q = other.replace(" ", "_")
+            eqs.append(("cross", f"{q}.rate + rate"))
+            eqs.append(("own", f"{mname.replace(' ', '_').upper()}.out_0 - out_0 + Base_Level"))
+        models.append((mname, eqs))
+    root = models[0][1]
+    root.append(("total", " + ".join(f"{n.replace(' ', '_')}.out_0" for n in names) + " + out_0"))
+    root.append(("pick", f"{names[0].replace(' ', '_')}.twice - {names[-1].replace(' ', '_')}.ctl_1 + rate"))
+    return models, (0.0, 4.0, 1.0, "1")
+
+
+def module_doc_xml(models, spec):
+    parts = [f'<?xml version="1.0" encoding="utf-8"?>\n<xmile version="1.0" xmlns="http://docs.oasis-open.org/xmile/ns/XMILE/v1.0">\n'
+             f'\t<header>\n\t\t<name>c03mod</name>\n\t\t<vendor>verif</vendor>\n\t</header>\n'
+             f'\t<sim_specs method="Euler" time_units="Months">\n\t\t<start>{int(spec[0])}</start>\n\t\t<stop>{int(spec[1])}</stop>\n\t\t<dt>{spec[3]}</dt>\n\t</sim_specs>']
+    for mi, (mname, eqs) in enumerate(models):
+        parts.append('\t<model>' if mname == "" else f'\t<model name="{xml_escape(mname)}">')
+        parts.append('\t\t<variables>')
+        if mname == "":
+            parts += [f'\t\t\t<module name="{xml_escape(n)}"/>' for n, _ in models if n != ""]
+        parts += [f'\t\t\t<aux name="{xml_escape(n)}">\n\t\t\t\t<eqn>{xml_escape(e)}</eqn>\n\t\t\t</aux>' for n, e in eqs]
+        parts.append('\t\t</variables>\n\t</model>')
+    parts.append('</xmile>\n')
+    return "\n".join(parts)
+
+
+def module_tables(models, san):
+    """python name of every variable and, per model, the resolution table canonical XMILE spelling -> python name
+    (unqualified names: the model's own variables; qualified names: every model's variables)"""
+    py = {}
+    for mname, eqs in models:
+        pm = san(mname) if mname else ""
+        for n, _ in eqs:
+            py[(mname, n)] = (pm + "." if pm else "") + san(n)
+    qualified = {xcanon(mname) + "." + xcanon(n): pn for (mname, n), pn in py.items() if mname}
+    res = {}
+    for mname, eqs in models:
+        r = dict(qualified)
+        r.update({xcanon(n): py[(mname, n)] for n, _ in eqs})
+        res[mname] = r
+    return py, res
+
+
+def eval_modules(models, spec, want=None):
+    """compile a module document with the real compiler and compare every variable (or only `want` = python name) with the
+    reference; returns the first failure as a replay dict or None"""
+    from BPTK_Py.sdcompiler.plugins import sanitizeName
+    d = scratch_dir("bptkverif_c03m_")
+    try:
+        py, res = module_tables(models, lambda n: sanitizeName("." + n.lower()))
+        try:
+            ir, sim, pysrc = real_compile(module_doc_xml(models, spec), d, "m")
+        except BaseException as ex:
+            return None
+        env = {}
+        for mname, eqs in models:
+            for n, eq in eqs:
+                try:
+                    env[py[(mname, n)]] = ref_parse(xlex(eq, res[mname]))
+                except Unsupp:
+                    return None
+        for mname, eqs in models:
+            for n, eq in eqs:
+                pn = py[(mname, n)]
+                if want is not None and pn != want:
+                    continue
+                for t in [spec[0], spec[0] + spec[2], spec[1]]:
+                    try:
+                        exp = ref_eval(env[pn], t, env, spec[:3])
+                    except (Domain, Unsupp):
+                        continue
+                    try:
+                        got = sim.equation(pn, t)
+                    except BaseException as ex:
+                        got = ex
+                    if isinstance(got, BaseException) or not same_val(got, exp):
+                        m = re.search(r"'%s'\s*: lambda t: (.*),\n" % re.escape(pn), pysrc)
+                        return {"kind": "modules", "models": [[mn, [list(x) for x in es]] for mn, es in models], "spec": list(spec), "variable": pn,
+                                "model": mname, "equation": eq, "t": t, "observed": repr(got), "expected": repr(exp), "python": m.group(1) if m else None}
+        return None
+    finally:
+        shutil.rmtree(d, ignore_errors=True)
+
+
+def shrink_modules(models, spec, want):
+    """drop variables and whole models while the same variable keeps failing"""
+    cur = eval_modules(models, spec, want)
+    if cur is None:
+        return None
+    models = [(mn, list(es)) for mn, es in models]
+    changed = True
+    while changed:
+        changed = False
+        for mi in range(len(models) - 1, -1, -1):
+            if models[mi][0] != "" :
+                trial = models[:mi] + models[mi + 1:]
+                r = eval_modules(trial, spec, want)
+                if r is not None:
+                    models, cur, changed = trial, r, True
+                    continue
+            for vi in range(len(models[mi][1]) - 1, -1, -1):
+                trial = [(mn, [e for j, e in enumerate(es) if not (i == mi and j == vi)]) for i, (mn, es) in enumerate(models)]
+                r = eval_modules(trial, spec, want)
+                if r is not None:
+                    models, cur, changed = trial, r, True
+    return cur
+
+
+def probe_tree_ownership():
+    """mechanism probe: after parse_xmile, do two equations hold the SAME tree object?  Document: root + two modules, the text
+    `rate * 2` in each.  Returns (rows [(sanitized model, cell id, identifier names seen)], text)"""
+    from BPTK_Py.sdcompiler.parsers.xmile.xmile import parse_xmile
+    from BPTK_Py.sdcompiler.plugins import sanitizeName
+    d = scratch_dir("bptkverif_c03o_")
+    try:
+        models = [("", [("rate", "3"), ("out", "rate * 2"), ("again", "rate * 2")]), ("Plant A", [("rate", "5"), ("out", "rate * 2")]),
+                  ("Plant B", [("rate", "7"), ("out", "rate * 2")])]
+        src = os.path.join(d, "o.xmile")
+        with open(src, "w") as f:
+            f.write(module_doc_xml(models, (0.0, 4.0, 1.0, "1")))
+        IR = parse_xmile(src)
+        rows, cells = [], {}
+        for mname, model in IR["models"].items():
+            for ents in model["entities"].values():
+                for e in ents:
+                    if e["equation"] != ["rate * 2"]:
+                        continue
+                    node = e["equation_parsed"][0]
+                    ident = node["args"][0] if isinstance(node, dict) and node.get("args") else node
+                    cell = cells.setdefault(id(ident), len(cells))
+                    rows.append((sanitizeName(mname) if mname else "", cell, ident.get("name") if isinstance(ident, dict) else repr(ident)))
+        return rows
+    finally:
+        shutil.rmtree(d, ignore_errors=True)
+
+
 
 
 def xlex(src, resolve):
@@ -1099,6 +1269,20 @@ def run(chk):
     else:
         ob += (litdefs + "theorem neg_literal_not_flat : ¬ (negLit = gen cfg false (.nnum \"2.0\") ∧ negLitPow = gen cfg false (.bin .pow (.nnum \"2.0\") (.num \"2.0\"))) := by decide +kernel\n"
                "#print axioms neg_literal_not_flat\n#print axioms signed_base_pow_paren_wrong\n")
+    # wave 6: every equation owns its tree object (probe: identity of the identifier node of `rate * 2` in root / Plant A / Plant B)
+    try:
+        own_rows = probe_tree_ownership()
+    except BaseException as ex:
+        own_rows = [("PROBE-FAILED " + type(ex).__name__, 0, ""), ("PROBE-FAILED", 0, "")]
+    owned = len({c for _, c, _ in own_rows}) == len(own_rows) and len(own_rows) >= 4
+    chk.notes["probe"]["tree_ownership"] = own_rows
+    eqn_rows = ", ".join(f"⟨{pyfrag.lean_str(mn)}, {c}, .bin .mul (.id \"rate\") (.num \"2.0\")⟩" for mn, c, _ in own_rows)
+    ob += f"def probedEqns : List Eqn := [{eqn_rows}]\n"
+    if owned:
+        ob += ("theorem trees_owned : ownedOK probedEqns = true := by decide +kernel\n#print axioms trees_owned\n"
+               "example := owned_resolution probedEqns trees_owned\n")
+    else:
+        ob += ("theorem trees_shared : ownedOK probedEqns = false := by decide +kernel\n#print axioms trees_shared\n#print axioms shared_tree_witness\n")
     gen = ("import Bptk.Props.C03\nimport Bptk.Gen.C03Cfg\n/-! GENERATED on every run. -/\nnamespace Bptk.C03.Gen\nopen Bptk.Py Bptk.C03\n"
            + ob + "end Bptk.C03.Gen\n")
     ok, why = chk.prove(gen, extra_sources=["Bptk/Gen/C03Cfg.lean", "Bptk/Proofs/PyFrag.lean", "Bptk/Proofs/PySound.lean", "Bptk/Proofs/PyDet.lean",
@@ -1150,6 +1334,7 @@ def run(chk):
     ndocs = 110 if chk.quick else 2500
     req, meta = [], []
     ref_fail, corr, loud_fail, delay_fail = None, None, None, None
+    mod_fail = None
     try:
         nout = drive("C03", nreq)
         for s, r in zip(name_cases, nout):
@@ -1213,6 +1398,78 @@ def run(chk):
                 chk.case(("eq", eq), nontrivial=len(toks) > 3, sample={"equation": eq, "python": text})
             for n, eq in eqs:
                 evals.append((di, n, eq, pyname[n], env, spec, sim, times))
+        # ---------------- wave 6: documents with modules; equation texts repeated across models
+        nmod = 10 if chk.quick else 120
+        mdocs = [make_module_doc(rng) for _ in range(nmod)]
+        mnames = sorted({x for models, _ in mdocs for mn, eqs in models for x in [mn] + [n for n, _ in eqs] if x})
+        mres = drive("C03", ["san " + ",".join(str(ord(ch)) for ch in ("." + n.lower())) for n in mnames])
+        msan = {n: "".join(chr(int(x)) for x in r[4:].split(",") if x) for n, r in zip(mnames, mres)}
+        mstat = stats.setdefault("modules", {"documents": 0, "models": 0, "equations": 0, "values_compared": 0, "repeated_texts": 0})
+        mevals = []
+        for mi_, (models, spec) in enumerate(mdocs):
+            py, res = module_tables(models, lambda n: msan[n])
+            try:
+                ir, sim, pysrc = real_compile(module_doc_xml(models, spec), d, f"md{mi_}")
+            except BaseException as ex:
+                if corr is None:
+                    corr = ("supported-equation-rejected", [[mn, es] for mn, es in models], f"{type(ex).__name__}: {str(ex)[:300]}", "module document compiles")
+                continue
+            mstat["documents"] += 1
+            mstat["models"] += len(models)
+            ents = {e["name"]: e for m_ in ir["models"].values() for ents_ in m_["entities"].values() for e in ents_}
+            env = {}
+            seen_texts = {}
+            for mname, eqs in models:
+                for n, eq in eqs:
+                    mstat["equations"] += 1
+                    seen_texts[eq] = seen_texts.get(eq, 0) + 1
+                    pn = py[(mname, n)]
+                    try:
+                        toks = xlex(eq, res[mname])
+                        rt = ref_parse(toks)
+                    except Unsupp as ex:
+                        if corr is None:
+                            corr = ("generator-outside-reference-grammar", eq, str(ex), "")
+                        continue
+                    env[pn] = rt
+                    ent = ents.get(pn)
+                    if ent is None:
+                        if corr is None:
+                            corr = ("entity-name", (mname, n), f"model {pn!r}", f"impl has {sorted(ents)[:14]}")
+                        continue
+                    text = str(gen_mod().parseExpression(copy.deepcopy(ent["equation_parsed"])))
+                    try:
+                        irw = ir_words(copy.deepcopy(ent["equation_parsed"]))
+                        pyw = pyfrag.lex(text)
+                        cpy = pyfrag.sexp_of_source(text)
+                    except (Unmodelled, pyfrag.Unsupported, SyntaxError) as ex:
+                        stats["unmodelled_ir"] += 1
+                        if corr is None:
+                            corr = ("unmodelled-ir", eq, f"{type(ex).__name__}: {ex}", text)
+                        continue
+                    xw = xwords(toks)
+                    req.append("eq " + str(len(xw)) + " " + " ".join(xw + irw))
+                    meta.append((f"[model {mname!r}] {eq}", text, pyw, cpy, ref_sexp(rt)))
+                    chk.case(("modeq", mname, eq), nontrivial=True, sample={"model": mname, "equation": eq, "python": text})
+            mstat["repeated_texts"] += sum(1 for v in seen_texts.values() if v > 1)
+            mevals.append((models, spec, py, env, sim))
+        mod_fail = None
+        for models, spec, py, env, sim in mevals:
+            for (mname, n), pn in py.items():
+                if pn not in env:
+                    continue
+                for t in [spec[0], spec[0] + spec[2], spec[1]]:
+                    try:
+                        exp = ref_eval(env[pn], t, env, spec[:3])
+                    except (Domain, Unsupp):
+                        continue
+                    try:
+                        got = sim.equation(pn, t)
+                    except BaseException as ex:
+                        got = ex
+                    mstat["values_compared"] += 1
+                    if (isinstance(got, BaseException) or not same_val(got, exp)) and mod_fail is None:
+                        mod_fail = (models, spec, pn)
         out = drive("C03", req) if req else []
         for (eq, text, pyw, cpy, rsx), r in zip(meta, out):
             if corr is not None:
@@ -1282,6 +1539,13 @@ def run(chk):
         small = shrink_doc(eqs, spec, n)
         chk.add_finding("value:" + classify(eq), f"variable {n!r} = {small['equation']} evaluates to {small['observed']} at t={small['t']}, XMILE semantics give {small['expected']}; emitted {small['python']}",
                         small)
+    if mod_fail is not None:
+        models, spec, pn = mod_fail
+        small = shrink_modules(models, spec, pn) or eval_modules(models, spec, pn) or {"kind": "modules", "models": [[mn, [list(x) for x in es]] for mn, es in models],
+                                                                                      "spec": list(spec), "variable": pn, "observed": "?", "expected": "?"}
+        chk.add_finding("value:module-reference", f"model {small.get('model')!r}: variable {small['variable']!r} = {small.get('equation')} evaluates to {small['observed']} at "
+                        f"t={small.get('t')}, XMILE semantics (unqualified names mean the variables of the model that contains the equation) give {small['expected']}; "
+                        f"emitted {small.get('python')}", small)
     for fkey, r in (delay_fail or {}).items():
         chk.add_finding(fkey, f"{r.get('builtin')} {r['variables'][-1][1]} with input {r['variables'][0][1]}, start {r['start']}, dt "
                         f"{'1/' if r['reciprocal'] else ''}{r['dt_text']}: value at grid point {r.get('k')} (t={r.get('t')}, {r.get('order')}) is {r['observed']}, "
@@ -1292,12 +1556,15 @@ def run(chk):
     if not good and ref_fail is None and loud_fail is None and delay_fail is None:
         chk.add_finding("obligation", f"configuration not good ({bad or missing or 'unknown builtin does not raise'}) and no failing equation found",
                         {"theorem": "Bptk.C03.Gen.cfg_good", "not_ok": bad, "missing": missing, "witnesses": witnesses}, found_input=False)
+    if not owned and mod_fail is None and ref_fail is None:
+        chk.add_finding("obligation", f"parse_xmile hands one tree object to several equations (rows {own_rows}) and no wrong value was found",
+                        {"theorem": "Bptk.C03.Gen.trees_shared"}, found_input=False)
     if not lit_flat and ref_fail is None and loud_fail is None and not delay_fail:
         chk.add_finding("obligation", f"a signed literal is no longer printed flat ({chk.notes['probe']['negLit']!r}; ^(-2, 2) -> {chk.notes['probe']['negLitPow']!r}) and no failing equation found",
                         {"theorem": "Bptk.C03.Gen.neg_literal_not_flat"}, found_input=False)
     if not ok:
         chk.add_finding("obligation", f"proof obligations of C03 no longer check: {why}", {"theorem": "Bptk.C03.Gen.*", "detail": why}, found_input=False)
-    if corr is not None and ref_fail is None and loud_fail is None:
+    if corr is not None and ref_fail is None and loud_fail is None and mod_fail is None:
         kind, a, b2, c2 = corr
         chk.add_finding("correspondence", f"{kind}: {a!r}: {b2} vs {c2}", {"correspondence": kind, "input": a, "model": b2, "impl": c2}, found_input=False)
     chk.notes["witnesses"] = witnesses
@@ -1371,6 +1638,11 @@ def replay_dict(r):
         if res is None:
             return False, f"{r['variable']} = {r['equation']}: real value equals the XMILE reference value at all probe times"
         return True, f"{res['variable']} = {res['equation']} at t={res['t']}: observed {res['observed']}, expected {res['expected']}; python {res['python']}"
+    if r.get("kind") == "modules":
+        res = eval_modules([(mn, [tuple(x) for x in es]) for mn, es in r["models"]], tuple(r["spec"]), r["variable"])
+        if res is None:
+            return False, f"{r['variable']}: real value equals the XMILE reference value (unqualified names resolved in the containing model)"
+        return True, f"model {res['model']!r}: {res['variable']} = {res['equation']} at t={res['t']}: observed {res['observed']}, expected {res['expected']}; python {res['python']}"
     if r.get("kind") == "delay":
         got = delay_replay(r)
         try:
